@@ -7,7 +7,7 @@ import time
 from vf import Inconclusive, parallel, require_clean, validate_traces, trace_slice, vfj_lines
 
 CLAIM = {
-    "text": "TLC exhaustively checks an implementation-shaped model of the pipeline (Pipeline.tla: opener with semaphore and WaitGroup, readers with full/timer/final batch cut, bounded batch channel, W workers with per-line classification and three atomic counters, readChan, close-after-Wait on both channels, consumer) for small file sets containing all four line classes: no send on a closed channel, every line classified at most once in every state and exactly once at the end, counters equal the ghost counts in every state, emitted bag = matched lines, refinement of the abstract bag specification PipelineObs, deadlock freedom and termination under weak fairness. TLC-simulated behaviours of that model (feed order, timer ticks, consumer pace) are replayed on the real batchers+extractor with the model's end state as expectation, and seeded random real executions (real files, FIFOs with chosen chunking, scripted stdin readers with the 250 ms and hook-shortened flush timer, lines longer than the 128 KiB buffer, CRLF, no trailing newline, random batch/workers/readers/buffer, regex/dissect/always matchers, random extract/ignore expressions) are recorded as batch/proc/ign/recv/final events and validated by the trace specification, which recomputes every line's class from the logged matcher/ignore/key facts; the `rare filter` binary's summary line and stdout keys are validated the same way.",
+    "text": "TLC exhaustively checks an implementation-shaped model of the pipeline (Pipeline.tla: opener with semaphore and WaitGroup, readers with full/timer/final batch cut, bounded batch channel, W workers with per-line classification and three atomic counters, readChan, close-after-Wait on both channels, consumer) for small file sets containing all four line classes: no send on a closed channel, every line classified at most once in every state and exactly once at the end, counters equal the ghost counts in every state, emitted bag = matched lines, refinement of the abstract bag specification PipelineObs, deadlock freedom and termination under weak fairness. TLC-simulated behaviours of that model (feed order, timer ticks, consumer pace) are replayed on the real batchers+extractor with the model's end state as expectation, and seeded random real executions (real files, FIFOs with chosen chunking, scripted stdin readers with the 250 ms and hook-shortened flush timer, lines longer than the 128 KiB buffer, CRLF, no trailing newline, random batch/workers/readers/buffer, regex/dissect/always matchers, random extract/ignore expressions) are recorded as batch/proc/ign/recv/final events and validated by the trace specification, which recomputes every line's class from the logged matcher/ignore/key facts; the `rare filter` binary's summary line and stdout keys are validated the same way. Two layers below the line-id model are specified and bound separately: PipelineBuf.tla composes the byte-level scanner model of C04 (ScannerImm, every chunk/buffer geometry within the bounds) with the reader loop, the batch channel, a worker and the consumer and states the assumption the pipeline makes of its scanner - no step changes the bytes under a view the pipeline still holds (HeldOK/HeldStable), hence every observer of line i sees the i-th input line (SeenOK, PFinalOK) - with a scanner that recycles a completely consumed buffer as negative control (refuted) and one that recycles only when nothing is held as the weaker design that still passes; PipelineIO.tla adds the input-opening layer (open, gzip probe consuming up to a window, rewind, stream inputs without open) to the reader life cycle, refines Pipeline when the fallback rewinds to the start and is refuted when it does not. The corpora exercise both: fixed-width lines dividing the 128 KiB read buffer in sources of k x 128 KiB +- a few lines with late-starting workers (files, FIFOs, scripted readers, the binary), and plain/gzip file sets read with -z whose plain sizes lie below, at and above the 4096-byte probe window.",
     "note": "Exhaustive only within the listed constants (<= 3 files, <= 5 lines, batch/workers/readers/buffer in 1..2); beyond that seeded random runs. Equal line contents are indistinguishable (identity by content). Expression evaluation and the matchers are taken as given (sequential reference uses the same library on an independent context); ignore values are restricted to ASCII for the truthiness rule. Non-atomic counter updates would show only as lost updates under contention (big multi-worker runs in the thorough tier).",
     "technique": "TLA+ refinement model checking (TLC) + model-behaviour replay + trace validation",
 }
@@ -73,6 +73,66 @@ GEN = [  # behaviours replayed on the real code (ReadCap = 5 as in extractor.New
     (8, 2, 2, 3, 1, 5, False), (4, 2, 2, 1, 1, 5, True), (7, 3, 2, 1, 1, 5, True), (6, 2, 2, 2, 1, 5, False),
 ]
 GEN_MORE = [(3, 2, 2, 1, 2, 5, False), (5, 1, 2, 1, 1, 5, False), (4, 3, 1, 1, 2, 5, True), (7, 1, 2, 1, 1, 5, False)]
+# ---- PipelineBuf (scanner views held by the pipeline) and PipelineIO (open / probe / rewind)
+PB_INVS = "PTypeOK HeldOK SeenOK OnceOK PFinalOK Bounds"
+
+
+def pb_cfg(maxlen, buf, batch, cap, reuse, invs=PB_INVS, props="HeldStable PTerminates"):
+    if reuse == "never":
+        invs += " Lifetime PrefixOK"
+        props += " ScannerIsImm"
+    return ("SPECIFICATION PSpec\nCONSTANTS Alphabet = {97, 98, 10}\n MaxLen = %d\n BufSize = %d\n MaxStall = 0\n"
+            " PBatch = %d\n PCap = %d\n Reuse = \"%s\"\nINVARIANTS %s\n%sCHECK_DEADLOCK FALSE\n" % (
+                maxlen, buf, batch, cap, reuse, invs, ("PROPERTIES %s\n" % props) if props else ""))
+
+
+def io_cfg(k, gunzip, gz, streams, probe, rewind, live, invs=None, fifos=(), fifoprobe="peek"):
+    c = consts(*k) + (" Gunzip = %s\n GzFiles = {%s}\n StreamFiles = {%s}\n ProbeLen = %d\n RewindTo = \"%s\"\n"
+                      " FifoFiles = {%s}\n FifoProbe = \"%s\"\n") % (
+        "TRUE" if gunzip else "FALSE", ",".join(map(str, gz)), ",".join(map(str, streams)), probe, rewind,
+        ",".join(map(str, fifos)), fifoprobe)
+    invs = invs or "TypeOKIO NoPanic SemaOKIO AtMostOnce CountersOK EmitOK LineNoOK FinalOK ScanFromStartOK"
+    if live:
+        return "SPECIFICATION SpecIO\n" + c + "INVARIANTS %s\nPROPERTIES IORefines Terminates\n" % invs
+    if rewind != "start" or fifoprobe != "peek":   # negative control: only the named invariant
+        return "INIT Init\nNEXT NextIO\n" + c + "INVARIANTS %s\n" % invs
+    return "INIT Init\nNEXT NextIO\n" + c + "INVARIANTS %s\nPROPERTIES IORefines\n" % invs
+
+
+# (module, cfg, label, expectation): expectation None = must pass; otherwise the invariant TLC must refute
+def layer_jobs(quick):
+    j = [
+        ("PipelineBuf", pb_cfg(4, 2, 2, 1, "never"), "PipelineBuf MaxLen=4 BufSize=2 batch=2 cap=1 reuse=never (the code)", None),
+        ("PipelineBuf", pb_cfg(4, 2, 2, 1, "free"), "PipelineBuf reuse only when nothing is held (weaker than C04 Lifetime, passes)", None),
+        ("PipelineBuf", pb_cfg(4, 2, 2, 1, "always", props=""), "PipelineBuf reuse=always (negative control: must be refuted)", "HeldOK"),
+        # plain file of 3 lines (above the window of 2) + gzip file, -z: refines Pipeline, terminates
+        ("PipelineIO", io_cfg((2, 2, 2, 2, 1, 1, False), True, (2,), (), 2, "start", True), "PipelineIO corpus=2 -z plain+gz window=2 rewind=start refines+terminates", None),
+        ("PipelineIO", io_cfg((2, 2, 2, 2, 1, 1, False), True, (2,), (), 2, "current", False, invs="FinalOK"), "PipelineIO rewind=current (negative control: must be refuted)", "FinalOK"),
+        # three files: 1 line (below the window, a FIFO), empty, 3 lines (above); the third is a stream (no open/probe)
+        ("PipelineIO", io_cfg((5, 1, 2, 2, 2, 2, False), True, (), (3,), 2, "start", False, fifos=(1,)), "PipelineIO corpus=5 -z fifo(below)+empty+stream safety+refines", None),
+        ("PipelineIO", io_cfg((5, 1, 2, 2, 2, 2, False), True, (), (3,), 2, "start", False, invs="FinalOK", fifos=(1,), fifoprobe="consume"),
+         "PipelineIO -z on a FIFO probed by consuming (the defect fixed by 0ceebc0: must be refuted)", "FinalOK"),
+    ]
+    if not quick:
+        j += [
+            ("PipelineBuf", pb_cfg(5, 2, 2, 1, "never"), "PipelineBuf MaxLen=5 BufSize=2 never", None),
+            ("PipelineBuf", pb_cfg(5, 3, 1, 2, "never"), "PipelineBuf MaxLen=5 BufSize=3 batch=1 cap=2 never", None),
+            ("PipelineBuf", pb_cfg(5, 1, 2, 2, "never"), "PipelineBuf MaxLen=5 BufSize=1 batch=2 cap=2 never", None),
+            ("PipelineBuf", pb_cfg(5, 2, 1, 1, "free"), "PipelineBuf MaxLen=5 BufSize=2 batch=1 free", None),
+            ("PipelineBuf", pb_cfg(4, 2, 1, 1, "free", invs="Lifetime", props=""), "PipelineBuf reuse=free violates C04's Lifetime (the pipeline's assumption is weaker)", "Lifetime"),
+            ("PipelineBuf", pb_cfg(5, 2, 1, 1, "always", invs="PFinalOK", props=""), "PipelineBuf reuse=always: the consumer sees a line that is not in the input (must be refuted)", "PFinalOK"),
+            ("PipelineBuf", pb_cfg(5, 3, 2, 2, "always", invs="SeenOK", props=""), "PipelineBuf BufSize=3 reuse=always (must be refuted)", "SeenOK"),
+            ("PipelineIO", io_cfg((2, 2, 2, 2, 1, 1, True), True, (2,), (), 3, "start", False), "PipelineIO corpus=2 window=3 (= size of file 1) timer flush", None),
+            ("PipelineIO", io_cfg((3, 2, 2, 2, 1, 1, False), True, (1,), (), 2, "start", False), "PipelineIO corpus=3 gz+plain(above)", None),
+            ("PipelineIO", io_cfg((3, 2, 2, 2, 1, 1, False), True, (1,), (), 2, "start", False, fifos=(1, 2)), "PipelineIO corpus=3 gz and plain(above) through FIFOs", None),
+            ("PipelineIO", io_cfg((3, 2, 2, 2, 1, 1, False), False, (), (), 2, "start", False), "PipelineIO corpus=3 without -z (open only)", None),
+            ("PipelineIO", io_cfg((4, 3, 1, 1, 1, 1, True), True, (), (1,), 2, "start", True), "PipelineIO corpus=4 stdin stream under -z", None),
+            ("PipelineIO", io_cfg((5, 1, 2, 2, 2, 2, False), True, (1,), (), 2, "start", True), "PipelineIO corpus=5 gz+empty+plain(above) refines+terminates", None),
+            ("PipelineIO", io_cfg((3, 2, 2, 2, 1, 1, False), True, (), (), 1, "current", False, invs="LineNoOK"), "PipelineIO rewind=current breaks the line numbers too (must be refuted)", "LineNoOK"),
+        ]
+    return j
+
+
 ACTIONS = ("OpenerStart", "OpenerLoopEnd", "OpenerClose", "ReaderScan", "ReaderSend", "ReaderExit",
            "WorkerRecv", "WorkerLine", "WorkerClassify", "WorkerSend", "Closer", "Consumer")
 
@@ -122,6 +182,8 @@ def _check(run):
         "identity of lines is by content; expression evaluation and matchers are the library's (C08-C12)",
         "ignore-expression values are ASCII (domain of the truthiness rule in the trace spec)",
         "unbuffered batch channel (--batch-buffer 0) is outside the property's quantifier (buffer >= 1)",
+        "PipelineBuf bounds: alphabet {a, b, LF}, streams <= 4 (5) bytes, buffer sizes 1..3, one worker, batch/channel sizes 1..2; the real 128 KiB geometry is exercised by the trace corpora only",
+        "PipelineIO measures the probe window in lines (bytes and line fragments only in the trace corpora); under -z the lines of an input are the lines of its decoded content when it is a gzip stream (one or two members) and of its raw bytes otherwise; plain inputs that begin with the gzip magic number, corrupt and truncated gzip streams are not generated (C06)",
     ]
     run.build_harness()
     rare = run.build_cli()
@@ -135,9 +197,29 @@ def _check(run):
             jobs.append(lambda k=k, live=live, i=i: (k, live, tlc(
                 run, "Pipeline_MC", mc_cfg(k, live), workers=2, timeout=3000, coverage=(i == 3),
                 label="Pipeline corpus=%d B=%d W=%d R=%d cap=%d rcap=%d tf=%s %s" % (k + ({"full": "refines+terminates", True: "refines(safety)+terminates", "step": "safety+refines(safety)", False: "safety"}[live],)))))
+        lj = layer_jobs(quick)
+        for mod, cfg, label, expect in lj:
+            jobs.append(lambda mod=mod, cfg=cfg, label=label, expect=expect: (mod, expect, tlc(
+                run, mod, cfg, workers=2, timeout=3000, label=label, coverage=(expect is None and "(the code)" in label))))
         out = parallel(jobs, 3)
+        layers, out = out[len(cfgs):], out[:len(cfgs)]
         for k, live, r in out:
             require_clean(run, r, "Pipeline %s" % (k,))
+        refuted = 0
+        for (mod, expect, r), (_, _, label, _) in zip(layers, lj):
+            if expect is None:
+                require_clean(run, r, label)
+            elif expect not in r.violated:
+                raise Inconclusive("negative control not refuted as expected (%s): %s violated=%s\n%s" % (expect, label, r.violated, r.out[-1500:]))
+            else:
+                refuted += 1
+        rpb = layers[0][2]
+        zero = [a for a in ("ReaderScan", "ReaderSend", "ReaderClose", "WorkerRecv", "WorkerLine", "WorkerSend", "Consume")
+                if rpb.coverage.get("PipelineBuf." + a, (0, 0))[0] == 0]
+        if zero:
+            raise Inconclusive("vacuous model: PipelineBuf actions never taken: %s" % zero)
+        run.cov["b3_layer_configs"] = len(lj)
+        run.cov["b3_negative_controls_refuted"] = refuted
         r0 = out[3][2]
         zero = [a for a in ACTIONS if r0.coverage.get("Pipeline." + a, (0, 0))[0] == 0]
         if zero:
@@ -215,27 +297,49 @@ def _check(run):
             f.write(open(cl).read())
         b2st["st"], b2st["cst"] = st, cst
 
+    # corpus families of PipelineBuf (buffer geometry) and PipelineIO (-z on mixed file sets): own trace file
+    layers_tr = os.path.join(sc, "c01-layers.ndjson")
+    b2lst = {}
+
+    def b2_layers_run():
+        d = os.path.join(sc, "layers-in")
+        os.makedirs(d)
+        cur = os.path.join(d, "current.txt")
+        p = run.drv(["trace", "-out", layers_tr, "-result", os.path.join(sc, "layers-result.json"), "-dir", d,
+                     "-n", 0, "-big", 0, "-slow", 0, "-huge", 0, "-first", 200001,
+                     "-geom", 7 if quick else 48, "-gz", 9 if quick else 60], check=False)
+        if p.returncode != 0:
+            crash_verdict(run, p, "B2 geometry / gunzip scenarios", cur)
+            return
+        b2lst["st"] = json.load(open(os.path.join(sc, "layers-result.json")))
+
+    def b2_layers_validate():
+        if not b2lst:
+            return
+        st = b2lst["st"]
+        if st["geometry"] == 0 or st["boundary_fills"] == 0:
+            raise Inconclusive("no read-buffer fill ended on a line boundary in the geometry corpus")
+        for k in ("below", "at", "above", "gz"):
+            if st["gz_window"].get(k, 0) == 0:
+                raise Inconclusive("the -z corpus has no %s file" % k)
+        run.cov["b2_geometry_scenarios"] = st["geometry"]
+        run.cov["b2_buffer_fills_ending_on_a_line_boundary"] = st["boundary_fills"]
+        run.cov["b2_gunzip_scenarios"] = st["gunzip"]
+        run.cov["b2_gunzip_files_by_probe_window"] = st["gz_window"]
+        run.cov["b2_lines_layers"] = st["lines"]
+        for k in ("matched", "ignored", "unmatched"):
+            run.cov.setdefault("b2_classes_layers", {})[k] = st["classes"].get(k, 0)
+        b2_report(layers_tr, "Pipeline_Trace (geometry / gunzip corpora)", st["multi_worker"])
+
     def b2_validate():
         if not b2st:
             return
         st, cst = b2st["st"], b2st["cst"]
-        res, r = validate_traces(run, "Pipeline_Trace", both, invariants=("Final",), xmx="8g")
-        modes, ntr = {}, 0
-        with open(both) as f:
-            for line in f:
-                if '"event":"reset"' in line:
-                    rec = json.loads(line)
-                    modes[rec["t"]] = rec["mode"]
-                    ntr += 1
-        if not res["done"] and not any(b["t"] == max(modes) for b in res["bad"]):
-            raise Inconclusive("last trace incomplete")
-        run.cov["traces_validated_against_impl"] += ntr
-        run.cov["evaluations"] += ntr
-        run.cov["distinct_nontrivial"] += st["multi_worker"] + cst["scenarios"]
-        run.cov["b2_events"] = res["consumed"]
         run.cov["b2_lines"] = st["lines"] + cst["lines"]
         run.cov["b2_modes"] = st["modes"]
         run.cov["b2_cli_runs"] = cst["scenarios"]
+        run.cov["b2_cli_gunzip_runs"] = cst.get("gunzip", 0)
+        run.cov["b2_cli_geometry_runs"] = cst.get("geometry", 0)
         run.cov["b2_scenarios_with_timer_cut"] = st["timer_cuts"]
         run.cov["b2_lines_longer_than_read_buffer"] = st["big_lines"] + cst["big_lines"]
         run.cov["b2_classes"] = {k: st["classes"].get(k, 0) + cst["classes"].get(k, 0) for k in ("matched", "ignored", "unmatched")}
@@ -244,8 +348,29 @@ def _check(run):
                 raise Inconclusive("no %s line in the random scenarios" % k)
         if st["modes"].get("reader", 0) == 0 or st["timer_cuts"] == 0:
             raise Inconclusive("the timer-flush path was not exercised")
+        if cst.get("gunzip", 0) == 0:
+            raise Inconclusive("no -z run of the binary")
         for s in (st["samples"] or [])[:2] + (cst["samples"] or [])[:1]:
             run.sample({"b2_scenario": s})
+        b2_report(both, "Pipeline_Trace", st["multi_worker"] + cst["scenarios"])
+
+    def b2_report(both, label, nontrivial):
+        res, r = validate_traces(run, "Pipeline_Trace", both, invariants=("Final",), xmx="8g", label=label)
+        modes, fam, ntr = {}, {}, 0
+        with open(both) as f:
+            for line in f:
+                if '"event":"reset"' in line:
+                    rec = json.loads(line)
+                    modes[rec["t"]] = rec["mode"]
+                    fam[rec["t"]] = (rec.get("family") or "") + (",-z" if rec.get("gunzip") else "")
+                    ntr += 1
+        if not res["done"] and not any(b["t"] == max(modes) for b in res["bad"]):
+            raise Inconclusive("last trace incomplete")
+        with _start:
+            run.cov["traces_validated_against_impl"] += ntr
+            run.cov["evaluations"] += ntr
+            run.cov["distinct_nontrivial"] += nontrivial
+            run.cov["b2_events"] = run.cov.get("b2_events", 0) + res["consumed"]
         lines = None
         for bad in res["bad"]:
             if lines is None:
@@ -259,11 +384,11 @@ def _check(run):
             path = run.save_replay("trace-%d.ndjson" % bad["t"], trace_slice(both, bad["t"])[:4000000])
             hdr = json.loads(trace_slice(both, bad["t"]).splitlines()[0])
             run.violation("b2:%s:%s" % ("cli" if mode.startswith("cli") else "pipe", evname),
-                          "recorded run %d (%s, batch %s workers %s readers %s buffer %s) is not a behaviour of the pipeline specification: rejected record %s" % (
-                              bad["t"], mode, hdr.get("batch"), hdr.get("workers"), hdr.get("readers"), hdr.get("buf"), ev[:400]), path)
+                          "recorded run %d (%s%s, batch %s workers %s readers %s buffer %s) is not a behaviour of the pipeline specification: rejected record %s" % (
+                              bad["t"], mode, (" " + fam[bad["t"]]) if fam.get(bad["t"]) else "", hdr.get("batch"), hdr.get("workers"), hdr.get("readers"), hdr.get("buf"), ev[:400]), path)
 
-    parallel([b1_gen, b2_run], 2)            # TLC simulation (4 x 1 worker) next to the Go drivers
-    parallel([b3, b1_replay, b2_validate], 3)   # TLC: 3 x 2 workers + 1
+    parallel([b1_gen, b2_run, b2_layers_run], 3)   # TLC simulation (4 x 1 worker) next to the Go drivers
+    parallel([b3, b1_replay, b2_validate, b2_layers_validate], 4)   # TLC: 3 x 2 workers + 1 + 1
     run.cov["rule"] = ("B3: all interleavings of Pipeline.tla within the listed constants; B1: distinct complete model behaviours "
                        "replayed on the real pipeline, non-trivial = >= 2 distinct emitted keys; B2: one trace per seeded "
-                       "scenario / CLI run, non-trivial = scenarios in which >= 2 worker instances processed lines, and CLI runs")
+                       "scenario / CLI run (incl. the buffer-geometry and -z corpora), non-trivial = scenarios in which >= 2 worker instances processed lines, and CLI runs")
